@@ -233,7 +233,8 @@ def run_metric(s):
                 q = {d: z3.Int(f"q_{d}") for d in m.dims}
                 return {"order": tuple(map(tuple, symx.ctx().ghost.get("set-order", {}).values())), "flags": {"exit": "return", "dims": tuple(sorted(m.dims))},
                         "terms": {"value": m.elem(q)}}
-            with util.patched(*util.std_patches(mods), (mods["metrics"], "frozenset", C10.DemonicFrozenSet)):
+            with util.patched(*util.std_patches(mods), (mods["metrics"], "frozenset", C10.DemonicFrozenSet), (mods["grid"], "frozenset", C10.DemonicFrozenSet),
+                              (mods["grid"], "set", util.DemonicSet)):
                 rep, recs = symx.explore_records(body, s["sid"])
             diffs, n = symx.compare_records(recs)
             n_all += n
